@@ -181,35 +181,47 @@ Definition QS : Scalar :=
 Definition qmax (a b : Qc) : Qc := if Qle_bool (this a) (this b) then b else a.
 Definition qsqr (x : Qc) : Qc := (x * x)%Qc.
 
-Section Coords.
-Variable mask : arr QS.
-
 (* mask = np.asarray(mask, dtype=bool), as 0/1 *)
-Definition mbit (i j : Z) : Qc := if mask_bool (get mask i j) then 1%Qc else 0%Qc.
-Definition mcount : Qc := sumZ (S := QS) (nr mask) (fun i => sumZ (S := QS) (nc mask) (fun j => mbit i j)).
+Definition mbit (mask : arr QS) (i j : Z) : Qc := if mask_bool (get mask i j) then 1%Qc else 0%Qc.
+Definition sum2 (n m : Z) (f : Z -> Z -> Qc) : Qc :=
+  sumZ (S := QS) n (fun i => sumZ (S := QS) m (fun j => f i j)).
+(* np.sum(mask) *)
+Definition mcount (mask : arr QS) : Qc := sum2 (nr mask) (nc mask) (mbit mask).
 (* lentil.centroid: img = img/np.sum(img); r = dot(rr.ravel(), img.ravel()), c likewise *)
-Definition centroid_r : Qc :=
-  sumZ (S := QS) (nr mask) (fun i => sumZ (S := QS) (nc mask) (fun j => (zQ i * (mbit i j / mcount))%Qc)).
-Definition centroid_c : Qc :=
-  sumZ (S := QS) (nr mask) (fun i => sumZ (S := QS) (nc mask) (fun j => (zQ j * (mbit i j / mcount))%Qc)).
-(* center = shape//2; shift = centroid - center *)
-Definition shift_r : Qc := (centroid_r - zQ (nr mask / 2))%Qc.
-Definition shift_c : Qc := (centroid_c - zQ (nc mask / 2))%Qc.
-(* mesh: arange(n) - floor(n/2.0) - shift *)
-Definition mesh_r (i : Z) : Qc := (zQ i - zQ (nr mask / 2) - shift_r)%Qc.
-Definition mesh_c (j : Z) : Qc := (zQ j - zQ (nc mask / 2) - shift_c)%Qc.
+Definition centroid_r (mask : arr QS) (cnt : Qc) : Qc :=
+  sum2 (nr mask) (nc mask) (fun i j => (zQ i * (mbit mask i j / cnt))%Qc).
+Definition centroid_c (mask : arr QS) (cnt : Qc) : Qc :=
+  sum2 (nr mask) (nc mask) (fun i j => (zQ j * (mbit mask i j / cnt))%Qc).
+(* helper.mesh, one axis: arange(n) - floor(n/2.0) - shift *)
+Definition mesh1 (n : Z) (shift : Qc) (i : Z) : Qc := (zQ i - zQ (n / 2) - shift)%Qc.
 (* r^2 = |rr + i cc|^2 *)
-Definition r2 (i j : Z) : Qc := (qsqr (mesh_r i) + qsqr (mesh_c j))%Qc.
-(* np.max(r*mask)^2: the largest r^2 over the masked samples (0 over unmasked ones) *)
-Definition r2mask : arr QS := mkArr (S := QS) (nr mask) (nc mask) (fun i j => (r2 i j * mbit i j)%Qc).
-Definition rmax2 : Qc := fold_left qmax (tabulate r2mask) 0%Qc.
-(* rho^2 *)
-Definition rho2 (i j : Z) : Qc := (r2 i j / rmax2)%Qc.
-(* theta = angle(-rr*exp(i pi/2) + i*cc*exp(i pi/2)) = angle(-cc - i rr): the argument of (x, y) *)
-Definition dir_x (i j : Z) : Qc := (- mesh_c j)%Qc.
-Definition dir_y (i j : Z) : Qc := (- mesh_r i)%Qc.
+Definition r2_of (rr cc : Z -> Qc) (i j : Z) : Qc := (qsqr (rr i) + qsqr (cc j))%Qc.
+(* np.max(r*mask)^2: the largest r^2 over the masked samples (0 over the others) *)
+Definition rmax2_of (mask : arr QS) (r2 : Z -> Z -> Qc) : Qc :=
+  fold_left qmax (tabulate (mkArr (S := QS) (nr mask) (nc mask) (fun i j => (r2 i j * mbit mask i j)%Qc))) 0%Qc.
 
-(* np.max of an empty array raises ValueError *)
-Definition coords_ok : result unit :=
-  if (nr mask <=? 0) || (nc mask <=? 0) then Err ValueError else Ok tt.
-End Coords.
+Record coords := mkCoords {
+  c_origin_r : Qc; c_origin_c : Qc;      (* the centroid (row, column) *)
+  c_rmax2 : Qc;                          (* np.max(r*mask)^2 *)
+  c_rho2 : Z -> Z -> Qc;                 (* rho^2 *)
+  c_dirx : Z -> Z -> Qc;                 (* theta = atan2(c_diry, c_dirx) *)
+  c_diry : Z -> Z -> Qc
+}.
+
+Definition zernike_coordinates (mask : arr QS) : result coords :=
+  (* np.max of an empty array raises ValueError *)
+  if (nr mask <=? 0) || (nc mask <=? 0) then Err ValueError else
+  let cnt := mcount mask in
+  let cr := centroid_r mask cnt in
+  let cc := centroid_c mask cnt in
+  (* center = shape//2; shift = centroid - center *)
+  let sr := (cr - zQ (nr mask / 2))%Qc in
+  let sc := (cc - zQ (nc mask / 2))%Qc in
+  let rr := mesh1 (nr mask) sr in
+  let ccm := mesh1 (nc mask) sc in
+  let rm2 := rmax2_of mask (r2_of rr ccm) in
+  Ok (mkCoords cr cc rm2
+        (fun i j => (r2_of rr ccm i j / rm2)%Qc)        (* rho = r/np.max(r*mask) *)
+        (* theta = angle(-rr*e + 1j*cc*e), e = exp(i pi/2) = i:  angle(-cc - i rr) *)
+        (fun i j => (- ccm j)%Qc)
+        (fun i j => (- rr i)%Qc)).
